@@ -183,11 +183,11 @@ def constOk (a : MemArea) : Bool := a == .dram || a == .onChipFlash || a == .off
 def arenaOk (a : MemArea) : Bool := a == .sram || a == .dram
 def cacheOk (a : MemArea) : Bool := a == .sram
 
-/-- the documented outcome for one `ArchitectureFeatures` -/
-def specArch (ini : Option Ini) (isU65 : Bool) (maxAddr : Nat) (sys mem : String) (cli : Option Int) :
-    Verdict Arch := do
-  let (cc, a0, a1, tab) ← docSysConfig ini isU65 sys
-  let (c, a, k, fileSize) ← docMemMode ini isU65 maxAddr mem
+/-- R5, R6 on the values of the two selected configurations -/
+def specFinal (maxAddr : Nat) (cli : Option Int) (sysv : Dy × MemArea × MemArea × Tab)
+    (memv : MemPort × MemPort × MemPort × Int) : Verdict Arch :=
+  let (cc, a0, a1, tab) := sysv
+  let (c, a, k, fileSize) := memv
   -- Sram-only arrangement
   let sramOnly := c == a && a == k && portArea a0 a1 c == .sram
   let c' := if sramOnly then otherPort c else c
@@ -202,9 +202,16 @@ def specArch (ini : Option Ini) (isU65 : Bool) (maxAddr : Nat) (sys mem : String
   let fa := portArea a0' a1' a
   let ka := portArea a0' a1' k
   if constOk pa && arenaOk fa && cacheOk ka && 0 ≤ size && size ≤ (maxAddr : Int) then
-    pure { coreClock := cc, axi0 := a0', axi1 := a1', tab := tab', constPort := c', arenaPort := a,
-           cachePort := k, arenaCacheSize := size, permanent := pa, featureMap := fa, fast := ka }
+    .accept { coreClock := cc, axi0 := a0', axi1 := a1', tab := tab', constPort := c', arenaPort := a,
+              cachePort := k, arenaCacheSize := size, permanent := pa, featureMap := fa, fast := ka }
   else .reject
+
+/-- the documented outcome for one `ArchitectureFeatures` -/
+def specArch (ini : Option Ini) (isU65 : Bool) (maxAddr : Nat) (sys mem : String) (cli : Option Int) :
+    Verdict Arch :=
+  (docSysConfig ini isU65 sys).bind fun sysv =>
+  (docMemMode ini isU65 maxAddr mem).bind fun memv =>
+  specFinal maxAddr cli sysv memv
 
 /-! ## the accelerators ("maximum address supported by the Ethos-U": 32-bit U55, 40-bit U65) -/
 
